@@ -16,11 +16,11 @@ func init() {
 	property("C04",
 		"Static conformance of the mechanisms that keep the output closed: every generated label reference (goto / case / goto_if) is written with the script name as prefix and an id that was registered with registerJumpChunk on every path before the write; chunk labels are rendered exactly for the entry chunk and registered chunks, each chunk once, with its own body; jump destinations are ids of chunks that were created and enqueued (never the 'no chunk' value); nothing is dropped or duplicated on the way (C01.b/c/d: statement conservation, unique ids, single enqueue); every chunk body ends in a goto/terminator or falls through only into the chunk rendered next (C01.f); the optimised order is a permutation (check-before-append); hoisted labels are defined (C06.c); label clash checks (C20.e). Label sets hold every chunk / every text (C20.e), hoisted movements are all added (C20.d), Emit is total (C10.f).",
 		[]string{"a rendered switch chunk is never the last chunk of either order (exemption for switchBranch.destChunkID)", "scheme argument of DESIGN §4 C01/C04"},
-		"C04.a", "C04.b", "C04.c", "C04.f", "C01.b", "C01.c", "C01.d", "C01.f", "C03.b", "C20.e", "C08.a", "C01.e", "C06.c", "C20.d", "C10.f", "C01.h", "C08.e", "C10.g", "C13.b", "C18.m", "C15.c", "C02.i", "C17.a", "C06.b", "C08.b")
+		"C04.a", "C04.b", "C04.c", "C04.f", "C01.b", "C01.c", "C01.d", "C01.f", "C03.b", "C20.e", "C08.a", "C01.e", "C06.c", "C20.d", "C10.f", "C01.h", "C08.e", "C10.g", "C13.b", "C18.m", "C15.c", "C02.i", "C17.a", "C06.b", "C08.b", "C18.d", "C18.n")
 	property("C05",
 		"Static conformance: the optimize flag is read only to choose the order in which the same chunk map is rendered (flag confinement), jump suppression is decided at render time against the actual next chunk (C01.f, both directions), every registered label is referenced on every path after its registration (no label without a reference), the order is a duplicate-free list starting at chunk 0 (C04.f) chosen without map-order dependence (C17.a). No emitter function writes an AST node or token, and New keeps its arguments unchanged (C05.a).",
 		[]string{"scheme argument of DESIGN §4 C05: with C01.f the text of each chunk transfers control to the same successors whatever the order"},
-		"C05.a", "C05.c", "C01.f", "C04.a", "C04.b", "C04.f", "C17.a", "C17.f", "C20.e", "C04.c", "C02.i", "C10.g", "C08.e", "C18.m")
+		"C05.a", "C05.c", "C01.f", "C04.a", "C04.b", "C04.f", "C17.a", "C17.f", "C20.e", "C04.c", "C02.i", "C10.g", "C08.e", "C18.m", "C18.d", "C18.n")
 
 	register(&Rule{ID: "C04.a", Doc: "every label reference uses the script name and an id registered before it on every path", Floor: 25, Run: c04a})
 	register(&Rule{ID: "C04.b", Doc: "labels rendered iff entry or registered; every chunk rendered once with its own body; next-chunk id computed from the order", Floor: 8, Run: c04b})
